@@ -35,7 +35,7 @@ Lemma insert_seq_perm p b : forall x, In x (insert_seq p b) <-> x = p \/ In x b.
 Proof.
   induction b as [|y b IH]; intros x; cbn [insert_seq].
   - cbn [In]. split; [intros [H|[]]; auto|intros [H|[]]; auto].
-  - destruct (p_seq p <? p_seq y); cbn [In]; [split; intros [H|H]; auto|]. rewrite IH. split; intros H; decompose [or] H; auto.
+  - destruct (seq_lt (p_seq p) (p_seq y)); cbn [In]; [split; intros [H|H]; auto|]. rewrite IH. split; intros H; decompose [or] H; auto.
 Qed.
 Lemma sort_seq_in b x : In x (sort_seq b) <-> In x b.
 Proof.
@@ -48,14 +48,13 @@ Proof. unfold pkts_ok. rewrite !Forall_forall. intros H x Hx. apply H. apply sor
 Lemma data_ok b : pkts_ok b -> bytes_ok (concat (map p_data b)).
 Proof. induction 1 as [|p b Hp _ IH]; cbn [map concat]; [constructor|]. apply bytes_ok_app; assumption. Qed.
 
-Theorem extract_total buf : pkts_ok buf -> exists b recs, extract buf = Ok (b, recs) /\ pkts_ok b.
+Theorem extract_total next buf : pkts_ok buf -> exists n b recs, extract next buf = Ok (n, b, recs) /\ pkts_ok b.
 Proof.
   intros Hb. unfold extract. pose proof (pkts_ok_sort _ Hb) as Hs.
-  destruct (contiguous (sort_seq buf)); [|eexists _, _; split; [reflexivity|exact Hs]].
+  destruct (_ && contiguous (sort_seq buf)); [|eexists _, _, _; split; [reflexivity|exact Hs]].
   set (d := concat (map p_data (sort_seq buf))). pose proof (data_ok _ Hs) as Hd. fold d in Hd.
   destruct (walk_total d Hd (S (length d)) 0 ltac:(unfold len; lia)) as (b & Hw). rewrite Hw. cbn [bind].
   destruct b.
-  - destruct (cut_after_walk d (ranges (sort_seq buf) 0) _ _ Hw) as (recs & ->). cbn [bind]. eexists _, _. split; [reflexivity|constructor].
-  - eexists _, _. split; [reflexivity|exact Hs].
+  - destruct (cut_after_walk d (ranges (sort_seq buf) 0) _ _ Hw) as (recs & ->). cbn [bind]. eexists _, _, _. split; [reflexivity|constructor].
+  - eexists _, _, _. split; [reflexivity|exact Hs].
 Qed.
-
